@@ -84,13 +84,20 @@ def gen_param_design(c, uid):
             "P_%s(Bits8, Bits8(1))", "P_%s(Bits8, 0)",
             # keyword arguments incl. falsy values next to the default configuration
             "P_%s(Bits8)", "P_%s(Bits8, k=0)", "P_%s(Bits8, k=1)", "P_%s(Bits8, tag='')", "P_%s(Bits8, k=0, tag='x')",
-            "Q_%s(8, depth=2)", "Q_%s(8, depth=1)", "Q_%s(nbits=8)"]
+            "Q_%s(8, depth=2)", "Q_%s(8, depth=1)", "Q_%s(nbits=8)", "P_%s(Bits8)", "P_%s(Bits8)", "Q_%s(8)", "Q_%s(8)"]
   cands16 = ["P_%s(Bits16, 1)", "P_%s(Bits16, 2)", "Q_%s(16, 2)", "Q_%s(16, 1)", "P_%s(Bits16, 1)"]
   for _ in range(c.randint(3, 7)):
     inst8.append(c.choice(cands8) % uid)
   for _ in range(c.randint(1, 3)):
     inst16.append(c.choice(cands16) % uid)
   L = []
+  # parameter overrides through set_param next to instances that keep the constructor-call value: the
+  # effective value (not the call's) must name the module
+  for i, e in enumerate(inst8):
+    if c.random() < 0.3 and "k=" not in e and e.count(",") == 0 and e.startswith("P_"):
+      L.append("    s.set_param('top.a%d.construct', k=%d)" % (i, c.choice([0, 1, 2, 5])))
+    elif c.random() < 0.2 and e.startswith("Q_") and "depth" not in e and e.count(",") == 0:
+      L.append("    s.set_param('top.a%d.construct', depth=%d)" % (i, c.choice([1, 2, 3])))
   for i, e in enumerate(inst8):
     L.append("    s.a%d = %s" % (i, e))
     L.append("    s.a%d.in_ //= s.in_" % i)
